@@ -222,6 +222,12 @@ def history_random(seed, tier):
             elif r < 0.80 and size < 4:
                 size += 1
                 steps.append({'op': rnd.choice(['compose', 'compose_prune']), 'rhs': _script_of(rnd.choice(H_COMPOSE)), 'aff': noaff})
+                if rnd.random() < 0.15:
+                    # a composition that changes the output dimension ends the history with operations that do not depend on it
+                    steps.append({'op': 'eliminate', 'rhs': [], 'aff': noaff})
+                    steps.append({'op': rnd.choice(['compose', 'compose_prune']), 'rhs': _script_of(('L', _aff([[1, 1]], [3]))), 'aff': noaff})
+                    steps.append({'op': rnd.choice(['eliminate', 'reduce', 'neg']), 'rhs': [], 'aff': noaff})
+                    break
             elif size < 4:
                 size += 1
                 steps.append({'op': rnd.choice(['add', 'sub']), 'rhs': _script_of(rnd.choice(H_ARITH)), 'aff': noaff})
